@@ -43,10 +43,12 @@ RULE = ("(1) enumeration: every integer binop x i1..i64 x flag set, icmp (10 pre
         "fpext/bitcast pair x flags, select, fneg/fabs/sqrt/floor/ceil/copysign as one-op functions "
         "on 16 boundary inputs, plain and through the O2 pipeline, plus 15 two-op idioms that LLVM "
         "folds when the first op carries nsw/nuw/exact/disjoint/nneg/nnan (an added flag changes a "
-        "defined result). (2) seeded generator of llvm-dialect modules (1-3 llvm.func, 1-6 blocks): "
+        "defined result), and cond_br with both edges to one block: every assignment of 2-3 block "
+        "arguments over 3 values on each edge x both condition values. (2) seeded generator of llvm-dialect modules (1-3 llvm.func, 1-6 blocks): "
         "the same ops plus constants (signed/unsigned/i64-typed spelling), alloca/getelementptr/"
         "load/store on 1-4 element buffers, calls to later functions (ccc or fastcc), br/cond_br with "
-        "block arguments (both edges to one block with equal or different arguments), counted loops, "
+        "block arguments (both edges to one block with equal or different arguments; 15% of multi-"
+        "block functions end in a merge block with 2-4 same-typed arguments fed with repetition), counted loops, "
         "unreachable blocks, permuted block layout; built with the op constructors, 30% additionally "
         "printed and re-parsed. Oracle: convert_module output must parse and verify in LLVM 20 "
         "(llvmlite), and the MCJIT-compiled code (plain or after O2), called through ctypes in a "
